@@ -211,6 +211,7 @@ func RunSim(t *testing.T, seed uint64, pol sim.Policy, maxSteps int, horizon tim
 				k.MaxSteps = maxSteps
 			}
 			k.HorizonN = int64(horizon)
+			k.Adopt = true
 			if sim.RaceEnabled {
 				k.MaxIdleJump = 5000
 			} else {
